@@ -448,10 +448,24 @@ def class_key_t(kind, case):
                                         "provided-cursor" if tc[3] == "C" else "entities-bucket")
 
 
+def kw_style(toks):
+    """the keyword-case style of a Q / T line: its last token `kc:<style>` (c01_kwcase.go), None = canonical spelling"""
+    return toks[-1][3:] if toks and toks[-1].startswith("kc:") else None
+
+
+def kw_suffix(style):
+    return " kc:" + style if style else ""
+
+
 def t_line(tc, tt, body_text_of):
     """the T line of a (shrunk) query: same store, strategy, universe and sort clause; text rebuilt from the body"""
     body = tt[1] if tt[0] == "q" else tt
     skip, limit = (tt[2], tt[3]) if tt[0] == "q" else ("-", "-")
+    style = getattr(body_text_of, "style", None)
+    if style:
+        # keywords spelled in another case: the harness prints the whole query (predicate, sort by, skip, limit) in that style
+        text = body_text_of(("q", body, skip, limit), sort=tc[5])
+        return " ".join(["T", tc[1], tc[2], tc[3], tc[4], tc[5], "ok", "-", "-", text or "-", term(("q", body, skip, limit))]) + kw_suffix(style)
     text = unhex(body_text_of(("q", body, "-", "-"))).decode("utf-8")
     if tc[5] != "-":
         text += " sort by " + unhex(tc[5]).decode("utf-8")
@@ -691,7 +705,7 @@ def dataset_line(stores):
 
 
 def q_line(store, t, text_of):
-    return "Q %s %s %s" % (store, text_of(t), term(t))
+    return "Q %s %s %s%s" % (store, text_of(t), term(t), kw_suffix(getattr(text_of, "style", None)))
 
 
 RANK = {"panic": 3, "ids": 2, "count": 2, "accepted": 1, "rejected": 1, "model": 1}
@@ -1077,9 +1091,11 @@ def main(argv):
             if toks[0] == "T":
                 # the answer of a scan strategy
                 t = p_term(P(toks[10:]))
+                kstyle = kw_style(toks)
 
-                def body_text_of(tt):
-                    return render(harness, c, tt)
+                def body_text_of(tt, sort=None, _st=kstyle):
+                    return render(harness, c, tt, style=_st, sort=sort)
+                body_text_of.style = kstyle
                 try:
                     dl, ts = shrink(rn, sl, dl0, store, t, v[0], body_text_of, tcase=toks)
                     lines = [sl, dl, t_line(toks, ts, body_text_of)]
@@ -1089,6 +1105,10 @@ def main(argv):
                     key = class_key_t(v2[0], obs)
                     m2 = modl2[-1]
                     what = "%s  [query: %s]" % (v2[1], unhex(obs.split()[9]).decode("utf-8", "replace"))
+                    kw_note = ""
+                    canon_txt = spelling_matters(rn, harness, c, sl, dl, store, ts, kstyle, tcase=toks)
+                    if canon_txt is not None:
+                        kw_note = KW_NOTE % canon_txt
                     # is the strategy the problem, or is the filter itself answered wrongly by the plain id scan too?
                     body = ts[1] if ts[0] == "q" else ts
                     qlines = [sl, dl, q_line(store, ("q", body, "-", "-"), body_text_of)]
@@ -1104,11 +1124,18 @@ def main(argv):
                         lines, obs, m2, v2 = qlines, implq[-1], modlq[-1], vq
                         what = "%s  [filter: %s]%s" % (vq[1], unhex(qlines[2].split()[2]).decode("utf-8", "replace"),
                                                       "  [schema variant %s, %s store %s]" % (vname, skind, store) if sfx else "")
+                        canon_txt = spelling_matters(rn, harness, c, sl, dl, store, ("q", body, "-", "-"), kstyle)
+                        if canon_txt is not None:
+                            key += "+keyword-case"
+                            what += KW_NOTE % canon_txt
                         if reported.get(key, 0) >= 2:
                             continue
                         reported[key] = reported.get(key, 0) + 1
                         c.violation(key, what, dict(case=lines, filter=unhex(qlines[2].split()[2]).decode("utf-8", "replace"), impl=obs, model=m2))
                         continue
+                    if kw_note:
+                        key += "+keyword-case"
+                        what += kw_note
                 except Exception as e:  # shrinking is best effort
                     lines, key, obs, m2, v2 = [sl, dl0, case], pre_key, case, m, v
                     what = "%s  [query: %s] (not shrunk: %s)" % (v[1], unhex(toks[9]).decode("utf-8", "replace"), e)
@@ -1119,12 +1146,14 @@ def main(argv):
                             no_input=(v2[0] in ("accepted", "rejected", "model")))
                 continue
             t = p_term(P(toks[3:]))
+            kstyle = kw_style(toks)
 
-            def text_of(tt, _orig=(term(t), toks[2])):
-                # the Go printer owns the text; shrunk filters are rendered by the harness
+            def text_of(tt, _orig=(term(t), toks[2]), _st=kstyle):
+                # the Go printer owns the text; shrunk filters are rendered by the harness (keywords in the style of the line)
                 if term(tt) == _orig[0]:
                     return _orig[1]
-                return render(harness, c, tt)
+                return render(harness, c, tt, style=_st)
+            text_of.style = kstyle
             try:
                 dl, ts = shrink(rn, sl, dl0, store, t, v[0], text_of)
                 lines = [sl, dl, q_line(store, ts, text_of)]
@@ -1134,6 +1163,10 @@ def main(argv):
                 what = "%s  [filter: %s]" % (v2[1], unhex(lines[2].split()[2]).decode("utf-8", "replace"))
                 if suffix:
                     what += "  [schema variant %s, %s store %s]" % (suffix.split("/")[-1].lstrip("@"), STORE_KINDS.get(store, "root"), store)
+                canon_txt = spelling_matters(rn, harness, c, sl, dl, store, ts, kstyle)
+                if canon_txt is not None:
+                    key += "+keyword-case"
+                    what += KW_NOTE % canon_txt
                 i2, m2 = impl2[-1], modl2[-1]
             except Exception as e:  # shrinking is best effort
                 lines, key, i2, m2, v2 = [sl, dl0, case], pre_key, i, m, v
@@ -1180,7 +1213,12 @@ def main(argv):
                      "Queries without a predicate (the empty text, sort by / skip / limit only) through every strategy and as Q lines.  "
                      "Sequences (M lines, c01_history.go): an earlier caller parses a text, applies SetPredicate / SetSkip / SetLimit / AdoptSortFields (alone, combined, with another caller's query in between) and evaluates the object "
                      "through QueryIdsC / QueryWithCursorC / IterateIds or not at all - its answer is judged against the refined query - then the same text is asked again on the same and on another store; "
-                     "a line that fails after M lines is replayed alone and after the minimal history (the answer must not depend on it)")
+                     "a line that fails after M lines is replayed alone and after the minimal history (the answer must not depend on it).  "
+                     "Keyword case (c01_kwcase.go): the lexer is case-insensitive per letter; about 30 % of the Q and T lines of the sweeps and of the random stream print every keyword / word operator occurrence "
+                     "(and, or, not, in / not in, between / not between, contains / icontains and their negations, anyOf / allOf / count / isEmpty, from / where, true / false / null, sort by / asc / desc / skip / limit / none, "
+                     "the T and Z of a datetime) lower, UPPER, Title, by a letter mask or per occurrence at random (with the white space inside `not <op>` varied as the token rule allows), the term and the expected answer unchanged; "
+                     "plus a bounded-exhaustive sweep of every keyword in every position x {lower, UPPER, Title, all 31 masks of the first five letters, 16 masks of later letters, 10 (thorough 60) per-occurrence styles}; "
+                     "a failing styled line is shrunk in its style and re-asked in the canonical spelling (key suffix +keyword-case when only the spelling matters)")
     c.cov["samples"] = samples
     try:
         c.cov["input_distribution"] = json.load(open(os.path.join(c.work, "stats.json")))
@@ -1220,10 +1258,11 @@ def report_history(c, rn, harness, reported, sl, dl0, case, v, hist):
         if toks[0] in ("Q", "T"):
             t = p_term(P(toks[3:] if toks[0] == "Q" else toks[10:]))
 
-            def text_of(tt, _orig=(term(t), toks[2] if toks[0] == "Q" else None)):
-                if _orig[1] is not None and term(tt) == _orig[0]:
+            def text_of(tt, sort=None, _orig=(term(t), toks[2] if toks[0] == "Q" else None), _st=kw_style(toks)):
+                if _orig[1] is not None and term(tt) == _orig[0] and sort is None:
                     return _orig[1]
-                return render(harness, c, tt)
+                return render(harness, c, tt, style=_st, sort=sort)
+            text_of.style = kw_style(toks)
             tcase = toks if toks[0] == "T" else None
             dl, ts = shrink(rn, sl, dl0, store, t, v[0], text_of, tcase=tcase, history=found)
             final = q_line(store, ts, text_of) if tcase is None else t_line(tcase, ts, text_of)
@@ -1297,14 +1336,53 @@ def run_model_parallel(model, cases, work, chunk=2500):
 _render_cache = {}
 
 
-def render(harness, c, t):
-    """ZitiQL text (hex) of a term, printed by the harness' own printer"""
-    key = term(t)
+def render(harness, c, t, style=None, sort=None):
+    """ZitiQL text (hex) of a term, printed by the harness' own printer; style: the case spelling of the keywords
+    (c01_kwcase.go); sort: the sort clause (hex or -) of a T line - the complete query text is printed"""
+    tkey = term(t)
+    key = (tkey, style, sort)
     if key in _render_cache:
         return _render_cache[key]
-    rc, out = vlib.run([harness, "c01", "--out", os.path.join(c.work, "render"), "--render", key.replace(" ", ",")], timeout=60)
+    args = [harness, "c01", "--out", os.path.join(c.work, "render"), "--render", tkey.replace(" ", ",")]
+    if style:
+        args += ["--kwcase", style]
+    if sort:
+        args += ["--sortclause", sort]
+    rc, out = vlib.run(args, timeout=60)
     if rc != 0:
         raise RuntimeError("render failed: " + out[-300:])
     txt = out.strip().split("\n")[-1].strip()
     _render_cache[key] = txt
     return txt
+
+
+def spelling_matters(rn, harness, c, sl, dl, store, ts, style, tcase=None, history=()):
+    """a failing line whose keywords are spelled in another case: does the canonical spelling of the SAME (shrunk)
+    query pass on the same dataset?  Then the answer depends on the spelling, which the lexer says is the same token."""
+    if not style or rn.budget <= 0:
+        return None
+    try:
+        def canon(tt, sort=None):
+            return render(harness, c, tt, sort=sort)
+        if tcase is None:
+            line = q_line(store, ts, canon)
+        else:
+            tc2 = list(tcase)
+            if tc2[5] != "-":
+                # the directions of the sort clause in lower case
+                parts = []
+                for fld in unhex(tc2[5]).decode("utf-8").split(","):
+                    w = fld.split()
+                    parts.append(" ".join(w[:1] + [x.lower() for x in w[1:]]))
+                tc2[5] = ", ".join(parts).encode("utf-8").hex()
+            line = t_line(tc2, ts, canon)
+        impl, modl = rn.run(seq_lines(history, (sl, dl, line)))
+        if judge_line(rn.cases[-1], impl[-1], modl[-1]) is None:
+            return unhex(line.split()[2 if tcase is None else 9]).decode("utf-8", "replace")
+    except Exception:
+        pass
+    return None
+
+
+KW_NOTE = ("  [only with this spelling of the keywords: written `%s` the same query on the same data is answered correctly - the lexer reads "
+           "every keyword and word operator case-insensitively per letter, the selected entities must not depend on the spelling]")
